@@ -122,9 +122,9 @@ def _b_ucx(r):
 def _sleaf():
     return st.one_of(
         st.sampled_from(SYMS).map(lambda n: {"T": "S", "op": "sym", "n": n}),
-        st.integers(-4, 7).map(lambda v: {"T": "S", "op": "int", "v": v}),
+        st.integers(-4, 7).filter(lambda v: v != 0).map(lambda v: {"T": "S", "op": "int", "v": v}),
         st.sampled_from([0.5, 2.5, -1.25, 0.1, 3.0, 1e-3]).map(lambda v: {"T": "S", "op": "float", "v": v}),
-        st.tuples(st.integers(-5, 5), st.integers(2, 7)).map(lambda pq: {"T": "S", "op": "rat", "p": pq[0], "q": pq[1]}),
+        st.tuples(st.integers(-5, 5).filter(lambda v: v != 0), st.integers(2, 7)).map(lambda pq: {"T": "S", "op": "rat", "p": pq[0], "q": pq[1]}),
         st.sampled_from(["pi", "E", "EulerGamma"]).map(lambda c: {"T": "S", "op": c}),
     )
 
@@ -142,7 +142,7 @@ def sexpr(depth=2):
         _ssym(),
         st.tuples(st.sampled_from(["add", "mul"]), st.deferred(lambda: sexpr(depth - 1)), st.lists(sub, min_size=1, max_size=2)).map(
             lambda t: {"T": "S", "op": t[0], "a": [t[1]] + t[2]}),
-        st.tuples(st.deferred(lambda: sexpr(depth - 1)), st.one_of(st.integers(-2, 3), st.just(0.5)).map(
+        st.tuples(st.deferred(lambda: sexpr(depth - 1)), st.one_of(st.sampled_from([-2, -1, 2, 3]), st.just(0.5)).map(
             lambda v: {"T": "S", "op": "int" if isinstance(v, int) else "float", "v": v})).map(
             lambda t: {"T": "S", "op": "pow", "a": [t[0], t[1]]}),
     )
@@ -1220,7 +1220,7 @@ def circuit_op(draw, reg_, depth=0, no_measure=False):
     invertible = True
     try:
         cirq.inverse(c.unfreeze())
-    except (TypeError, ValueError):
+    except Exception:  # probe only: anything but a clean inverse means "do not draw negative repetitions"
         invertible = False
     if mode == "reps":
         r["repetitions"] = draw(st.sampled_from([0, 2, 3, -1, -2] if invertible else [0, 2, 3]))
@@ -1721,7 +1721,8 @@ def hashable_gate():
 
 
 def _hashable_gate():
-    return _hashable_gate0().filter(lambda r: '"T": "np"' not in _k(r))  # numpy scalars leak into str(gate) (default family names)
+    # numpy scalars / python ints leak into str(gate), which GateFamily uses as its default name ("CZ**3" vs "CZ**3.0")
+    return _hashable_gate0().filter(lambda r: '"T": "np"' not in _k(r) and not (r.get("T") == "EG" and isinstance(r.get("e"), int)))
 
 
 def _hashable_gate0():
@@ -2536,7 +2537,9 @@ def any_value():
 @st.composite
 def container(draw):
     """values nested in lists / dicts / tuples with shared sub-objects (same recipe object built once, referenced twice)."""
-    items = draw(st.lists(root_value(), min_size=1, max_size=3))
+    items = draw(st.lists(root_value().filter(lambda r: r["name"] not in LEGACY), min_size=1, max_size=3))
+    if draw(st.booleans()):  # make the VAL/REF path common: a value holding FrozenCircuits
+        items.insert(0, draw(st.sampled_from(["FrozenCircuit", "CircuitOperation", "Circuit", "Moment"]).flatmap(root_value)))
     layout = draw(st.sampled_from(["list", "dict", "nested", "shared", "tuple", "mixed"]))
     return {"T": "container", "layout": layout, "items": [i["v"] for i in items], "names": [i["name"] for i in items],
             "scalars": draw(st.lists(st.one_of(st.integers(-5, 5), G.small_floats(), st.sampled_from(["s", "ü", ""]), st.booleans(), st.none(),
